@@ -2,7 +2,7 @@
 from . import concdrive
 
 PID = "C13"
-PHASES = ["multi", "setalg", "conserve", "list"]
+PHASES = ["multi", "setalg", "conserve", "list", "pairs"]
 
 
 def run(ctx):
